@@ -799,9 +799,12 @@ def run_session(world, model, sdesc, armed, index, logger=None, gen_cb=None, che
         sess.ctx = ctx
         register(ctx, functions, order)
         runner = ctx.apply
-    if armed == "C07":
+    if armed == "C07" or (armed == "C01" and any(op["k"] == "reg" for op in ops)):
         from . import oracles
 
+        # (C01 needs it as well: a scope registration that is silently not
+        # applied leaves no capture behind, i.e. nothing the byte model
+        # could miss)
         sess.c07_expected = oracles.c07_expected(sess)
     sess.pre_blocks = {b.uuid for b in m.byte_blocks}
     # first block of every byte interval (the one that keeps the original
